@@ -155,6 +155,27 @@ pub fn run(tier: Tier) -> i32 {
             }
         }
     }
+    // a regional tag names one (language, sublanguage) pair, so at most one
+    // code may carry it: any other code with that tag has an unknown
+    // sublanguage and must show the bare language tag instead
+    {
+        let mut carriers: BTreeMap<&String, Vec<u16>> = BTreeMap::new();
+        for code in 0..=65535u16 {
+            let t = &code_tag[code as usize];
+            if t.contains('-') {
+                carriers.entry(t).or_default().push(code);
+            }
+        }
+        for (t, codes) in carriers {
+            if codes.len() > 1 {
+                rep.violation(
+                    "regional-tag-on-several-codes".into(),
+                    format!("regional tag {:?} is returned for {} different codes (e.g. {:?}); only one (language, sublanguage) pair can be that variant, the others have an unknown sublanguage and must show the bare language tag", t, codes.len(), &codes[..codes.len().min(4)]),
+                    json!({"kind":"c17-code","code":codes[1]}),
+                );
+            }
+        }
+    }
     // every tag maps to its own code and back
     for (t, &min_code) in &tags {
         if t == "und" {
